@@ -349,6 +349,21 @@ class EffectAnalysis:
                                     ch = True
         return ch
 
+    def _scalar_table_lookup(self, f: FuncInfo, e) -> bool:
+        """`TABLE[i]` on a module-level constant sequence / mapping all of whose values are str, bytes or numbers: the value added by
+        `x += TABLE[i]` is immutable, so (as for a literal) the statement rebinds x."""
+        if not (isinstance(e, ast.Subscript) and isinstance(e.value, ast.Name) and not isinstance(e.slice, ast.Slice)):
+            return False
+        env = self.ce.module_env(f.module)
+        if e.value.id not in env or any(isinstance(n, ast.Name) and n.id == e.value.id and isinstance(n.ctx, ast.Store) for n in walk_no_nested(f.node)):
+            return False
+        try:
+            v = self.ce.value(f.module, e.value.id)
+        except Exception:
+            return False
+        vals = v.values() if isinstance(v, dict) else (v if isinstance(v, (tuple, list)) else None)
+        return vals is not None and len(v) > 0 and all(isinstance(x, (str, bytes, int, float)) for x in vals)
+
     # ------------------------------------------------------------------ sinks
     def _fresh_field_assigned_before(self, f: FuncInfo, node: ast.AST, attr: str) -> bool:
         """Is there an assignment `self.attr = <fresh display/call>` earlier in the same function (by position, at the
@@ -379,7 +394,7 @@ class EffectAnalysis:
             elif isinstance(n, ast.AugAssign):
                 # `x op= <str/int/bytes literal or f-string>` rebinds an immutable value; anything else may be an
                 # in-place update of a mutable object (list += ..., set |= ..., dict |= ...)
-                if isinstance(n.target, ast.Name) and not _immutable_rhs(n.value):
+                if isinstance(n.target, ast.Name) and not _immutable_rhs(n.value) and not self._scalar_table_lookup(f, n.value):
                     recv, kind = n.target, "augmented assignment (in-place for mutable objects)"
                 # subscript/attribute targets are covered by their Store context above
             elif isinstance(n, ast.Call) and isinstance(n.func, ast.Attribute) and n.func.attr in MUTATORS:
